@@ -2,6 +2,7 @@ package main
 
 import (
 	"fmt"
+	"go/constant"
 	"go/token"
 	"go/types"
 	"regexp"
@@ -604,6 +605,52 @@ func init() {
 				}
 			}
 			c.Check(n == 1, fk+" :: event entry write found", w.pos(f.Pos()), "1 Set", fmt.Sprintf("%d", n))
+		}
+	})
+}
+
+// ------------------------------------------------------------------ C19.R10
+// Who receives a publication is decided by its composite-key map. The keys tm.event, tx.hash and tx.height
+// are the bus's own: subscribers select the kind of message (and clients the transaction they wait for) by
+// them, and consumers such as the indexer service assert the payload type of what arrives on a tm.event
+// subscription. The rest of the map comes from the application's events, whose type/key strings are chosen
+// by the application (and, through contract platforms, by users). Rule: in every EventBus publisher the value
+// stored under a reserved key is a fresh one-element list — never something built from what the map already
+// held under that key (F49: append(events[key], value) let a transaction's events address it to the
+// subscribers of NewBlockHeader, or to the client waiting for another transaction's hash).
+func init() {
+	register("C19", "R10", "K3", "the event bus stores fresh one-element lists under its reserved keys (tm.event, tx.hash, tx.height): application events cannot add values there", 5, func(c *Ctx) {
+		w := c.W
+		reserved := map[string]bool{}
+		for _, n := range []string{"EventTypeKey", "TxHashKey", "TxHeightKey"} {
+			reserved[c.mustConstString("types", n)] = true
+		}
+		want := map[string]int{"EventBus.PublishEventTx": 3, "EventBus.PublishEventNewBlock": 1, "EventBus.PublishEventNewBlockHeader": 1}
+		for _, name := range []string{"EventBus.PublishEventNewBlock", "EventBus.PublishEventNewBlockHeader", "EventBus.PublishEventTx"} {
+			n := want[name]
+			f := c.fn("types", name)
+			if f == nil {
+				continue
+			}
+			fk := funcKey(f)
+			got := 0
+			for _, b := range f.Blocks {
+				for _, in := range b.Instrs {
+					mu, ok := in.(*ssa.MapUpdate)
+					if !ok {
+						continue
+					}
+					k, isK := stripConv(mu.Key).(*ssa.Const)
+					if !isK || k.Value == nil || k.Value.Kind() != constant.String || !reserved[constant.StringVal(k.Value)] {
+						continue
+					}
+					got++
+					key := constant.StringVal(k.Value)
+					elems := sliceElems(mu.Value)
+					c.Check(len(elems) == 1, fk+" :: value stored under "+key, w.ipos(mu), "a fresh list with the bus's own value", "stores "+w.expr(mu.Value)+": values the application's events put under "+key+" survive and decide who receives the publication")
+				}
+			}
+			c.Check(got == n, fk+" :: reserved keys set", w.pos(f.Pos()), fmt.Sprintf("%d", n), fmt.Sprintf("%d", got))
 		}
 	})
 }
